@@ -13,7 +13,7 @@ import Mathlib.Tactic.NormNum
 "Every point at which the objective is evaluated lies inside the box [lower, upper]; the returned best
 trial does too, also after the local refinement."
 
-Setting: `Solver.mk c` (`IOptModel/Solver.lean`), `1 ≤ N ≤ 5`, bounds of length `N` with
+Setting: `Solver.mk c` (`IOptModel/Solver.lean`), `Ev.DimOK1 N`, bounds of length `N` with
 `lower_i < upper_i`; `int(d)` = natural floor.  The statements at process level hold after ANY sequence
 of `DoGlobalIteration(k)` / `Solve` calls on a fresh solver, for ANY objective (raising or not), with no
 assumption on `r`, `eps` or the library functions.  The refinement results are inputs of the model
@@ -44,17 +44,16 @@ theorem StrictlyInBox.inBox {c : Solver.Config α} {pt : List α} (hl : c.lower.
   exact ⟨(hc i hi3 hi1 hi2).1.le, (hc i hi3 hi1 hi2).2.le⟩
 
 /-- the evolvent of the solver maps `(0,1)` strictly inside the box (N = 1: the affine branch;
-N = 2..5: cell centres) -/
-theorem image_strictlyInBox (c : Solver.Config α) (hn : 1 ≤ c.n ∧ c.n ≤ 5) (hl : c.lower.length = c.n)
+`Ev.DimOK N`: cell centres) -/
+theorem image_strictlyInBox (c : Solver.Config α) (hn : Ev.DimOK1 c.n) (hl : c.lower.length = c.n)
     (hu : c.upper.length = c.n)
     (hlt : ∀ i (h1 : i < c.lower.length) (h2 : i < c.upper.length), c.lower[i] < c.upper[i])
     {x : α} (h0 : 0 < x) (h1 : x < 1) : StrictlyInBox c ((Solver.mk c).image x) := by
-  rcases Nat.lt_or_ge c.n 2 with h2 | h2
+  rcases hn.cases with h2 | h2
   · -- N = 1
     obtain ⟨n, lower, upper, eps, r, il, m⟩ := c
     simp only at hn hl hu hlt h2
-    have : n = 1 := by omega
-    subst this
+    subst h2
     match lower, upper, hl, hu with
     | [a], [b], _, _ =>
       have hab : a < b := hlt 0 (by simp) (by simp)
@@ -69,18 +68,17 @@ theorem image_strictlyInBox (c : Solver.Config α) (hn : 1 ≤ c.n ∧ c.n ≤ 5
       constructor
       · have := mul_pos h0 hd; linarith
       · have := mul_lt_mul_of_pos_right h1 hd; linarith
-  · exact Ev.C07_getImage_in_box ⟨h2, hn.2⟩ c.evolventDensity c.lower c.upper hl hu hlt x
+  · exact Ev.C07_getImage_in_box h2 c.evolventDensity c.lower c.upper hl hu hlt x
 
 /-- and `[0,1]` into the closed box -/
-theorem image_inBox (c : Solver.Config α) (hn : 1 ≤ c.n ∧ c.n ≤ 5) (hl : c.lower.length = c.n)
+theorem image_inBox (c : Solver.Config α) (hn : Ev.DimOK1 c.n) (hl : c.lower.length = c.n)
     (hu : c.upper.length = c.n)
     (hlt : ∀ i (h1 : i < c.lower.length) (h2 : i < c.upper.length), c.lower[i] < c.upper[i])
     {x : α} (h0 : 0 ≤ x) (h1 : x ≤ 1) : InBox c.lower c.upper ((Solver.mk c).image x) := by
-  rcases Nat.lt_or_ge c.n 2 with h2 | h2
+  rcases hn.cases with h2 | h2
   · obtain ⟨n, lower, upper, eps, r, il, m⟩ := c
     simp only at hn hl hu hlt h2
-    have : n = 1 := by omega
-    subst this
+    subst h2
     match lower, upper, hl, hu with
     | [a], [b], _, _ =>
       have hab : a < b := hlt 0 (by simp) (by simp)
@@ -98,13 +96,13 @@ theorem image_inBox (c : Solver.Config α) (hn : 1 ≤ c.n ∧ c.n ≤ 5) (hl : 
         · have := mul_nonneg h0 hd.le; linarith
         · have := mul_le_mul_of_nonneg_right h1 hd.le; linarith
   · exact StrictlyInBox.inBox hl hu
-      (Ev.C07_getImage_in_box ⟨h2, hn.2⟩ c.evolventDensity c.lower c.upper hl hu hlt x)
+      (Ev.C07_getImage_in_box h2 c.evolventDensity c.lower c.upper hl hu hlt x)
 
-/-- **C05, first sentence (global phase).** For `1 ≤ N ≤ 5` and bounds with `lower_i < upper_i`:
+/-- **C05, first sentence (global phase).** For `Ev.DimOK1 N` and bounds with `lower_i < upper_i`:
 after any sequence `ops` of `DoGlobalIteration(k)` / `Solve` calls on a fresh solver, with any
 objective (raising or not) and any refinement, every point that the global search handed to the
 objective has `N` coordinates with `lower_i < pt_i < upper_i` for every `i`. -/
-theorem C05_trials_in_box (c : Solver.Config α) (hn : 1 ≤ c.n ∧ c.n ≤ 5) (hl : c.lower.length = c.n)
+theorem C05_trials_in_box (c : Solver.Config α) (hn : Ev.DimOK1 c.n) (hl : c.lower.length = c.n)
     (hu : c.upper.length = c.n)
     (hlt : ∀ i (h1 : i < c.lower.length) (h2 : i < c.upper.length), c.lower[i] < c.upper[i])
     (f : Nat → List α → Option α) (refine : PState α → Option (LocalResult α)) (ops : List Op) :
@@ -115,7 +113,7 @@ theorem C05_trials_in_box (c : Solver.Config α) (hn : 1 ≤ c.n ∧ c.n ≤ 5) 
 
 /-- the same for the states of the method (`AGP.Reach`): every logged point and the stored point of
 every evaluated item are strictly inside the box; the two end items are in the closed box. -/
-theorem C05_trials_in_box_reach (c : Solver.Config α) (hn : 1 ≤ c.n ∧ c.n ≤ 5)
+theorem C05_trials_in_box_reach (c : Solver.Config α) (hn : Ev.DimOK1 c.n)
     (hl : c.lower.length = c.n) (hu : c.upper.length = c.n)
     (hlt : ∀ i (h1 : i < c.lower.length) (h2 : i < c.upper.length), c.lower[i] < c.upper[i])
     {s : State α} {log : List (List α × α)} (h : Reach (Solver.mk c) s log) :
@@ -133,7 +131,7 @@ operations on a fresh solver, if every result `lr` of the local search satisfies
 "`lr.x` is inside the bounds" (`NM.inside`), the stored point of EVERY item of the search information
 — in particular of the best trial `findItem s.items s.best`, which is what `GetResults` reports — lies
 in the closed box. -/
-theorem C05_best_in_box (c : Solver.Config α) (hn : 1 ≤ c.n ∧ c.n ≤ 5) (hl : c.lower.length = c.n)
+theorem C05_best_in_box (c : Solver.Config α) (hn : Ev.DimOK1 c.n) (hl : c.lower.length = c.n)
     (hu : c.upper.length = c.n)
     (hlt : ∀ i (h1 : i < c.lower.length) (h2 : i < c.upper.length), c.lower[i] < c.upper[i])
     (f : Nat → List α → Option α) (refine : PState α → Option (LocalResult α))
@@ -149,13 +147,13 @@ theorem C05_best_in_box (c : Solver.Config α) (hn : 1 ≤ c.n ∧ c.n ≤ 5) (h
 /-- **C05, the best trial of the global phase is strictly inside.**  In every reachable state of the
 method (laws of the library functions, `1 < r`) the best trial exists, is one of the evaluated trials
 (`C04_best`) and its point is strictly inside the box. -/
-theorem C05_best_strictly_in_box (c : Solver.Config α) (hn : 1 ≤ c.n ∧ c.n ≤ 5)
+theorem C05_best_strictly_in_box (c : Solver.Config α) (hn : Ev.DimOK1 c.n)
     (hl : c.lower.length = c.n) (hu : c.upper.length = c.n)
     (hlt : ∀ i (h1 : i < c.lower.length) (h2 : i < c.upper.length), c.lower[i] < c.upper[i])
     (hL : FnsLaws α) (hr : 1 < c.r) {s : State α} {log : List (List α × α)}
     (h : Reach (Solver.mk c) s log) :
     ∃ b, findItem s.items s.best = some b ∧ (b.point, b.hv) ∈ log ∧ StrictlyInBox c b.point := by
-  obtain ⟨b, hb, -, -, -, hmem, -⟩ := C04_best (p := Solver.mk c) hL hr (by show 0 < c.n; omega) h
+  obtain ⟨b, hb, -, -, -, hmem, -⟩ := C04_best (p := Solver.mk c) hL hr (by show 0 < c.n; exact hn.one_le) h
   exact ⟨b, hb, hmem, (C05_trials_in_box_reach c hn hl hu hlt h).1 _ hmem⟩
 
 /-- **C05, after `DoLocalRefinement` under the Nelder–Mead contract.**  If the process holds the method
@@ -197,7 +195,7 @@ theorem exampleConfig1_lt : ∀ i (_ : i < exampleConfig1.lower.length) (_ : i <
 example : (∀ e ∈ (runOps (Solver.mk exampleConfig) (fun _ pt => some pt.sum) (fun _ => none) [Op.solve] {}).evals,
       StrictlyInBox exampleConfig e.1) ∧
     (runOps (Solver.mk exampleConfig) (fun _ pt => some pt.sum) (fun _ => none) [Op.solve] {}).evals ≠ [] := by
-  refine ⟨C05_trials_in_box exampleConfig ⟨by norm_num [exampleConfig], by norm_num [exampleConfig]⟩ rfl rfl
+  refine ⟨C05_trials_in_box exampleConfig (by show Ev.DimOK1 2; decide) rfl rfl
     exampleConfig_lt _ _ _, ?_⟩
   obtain ⟨K, -, hK, -, h1, -⟩ := C03.C03_stop_exact_field (Solver.mk exampleConfig) (fun _ pt => some pt.sum)
     (fun _ => none) FnsLaws.real (by norm_num [Solver.mk, exampleConfig]) (by norm_num [Solver.mk, exampleConfig])
@@ -211,14 +209,14 @@ example : (∀ e ∈ (runOps (Solver.mk exampleConfig) (fun _ pt => some pt.sum)
 /-- the hypotheses of `C05_trials_in_box_reach` / `C05_best_strictly_in_box` are satisfiable in
 dimension 1: a reachable state with 6 trials -/
 example : ∃ (s : State ℝ) (log : List (List ℝ × ℝ)),
-    (1 ≤ exampleConfig1.n ∧ exampleConfig1.n ≤ 5) ∧ FnsLaws ℝ ∧ 1 < exampleConfig1.r ∧
+    (Ev.DimOK1 exampleConfig1.n) ∧ FnsLaws ℝ ∧ 1 < exampleConfig1.r ∧
     Reach (Solver.mk exampleConfig1) s log ∧ log.length = 6 ∧
     ∃ b, findItem s.items s.best = some b ∧ (b.point, b.hv) ∈ log ∧ StrictlyInBox exampleConfig1 b.point := by
   have hr : (1 : ℝ) < (Solver.mk exampleConfig1).r := by norm_num [Solver.mk, exampleConfig1]
   have hn : 0 < (Solver.mk exampleConfig1).n := by norm_num [Solver.mk, exampleConfig1]
   obtain ⟨s, log, hre, hlen, -⟩ := exists_reach_obj (p := Solver.mk exampleConfig1) FnsLaws.real hr hn
     (fun pt => pt.sum) 5
-  have h1 : 1 ≤ exampleConfig1.n ∧ exampleConfig1.n ≤ 5 := ⟨le_refl _, by norm_num [exampleConfig1]⟩
+  have h1 : Ev.DimOK1 exampleConfig1.n := by show Ev.DimOK1 1; decide
   exact ⟨s, log, h1, FnsLaws.real, hr, hre, hlen,
     C05_best_strictly_in_box exampleConfig1 h1 rfl rfl exampleConfig1_lt FnsLaws.real hr hre⟩
 
@@ -228,7 +226,7 @@ example : ∀ s, (runOps (Solver.mk exampleConfig) (fun _ pt => some pt.sum)
       (fun _ => some { x := [0, 1], fx := 1, nfev := 3 }) [Op.iter 3, Op.solve] {}).m = some s →
     ∀ b, findItem s.items s.best = some b → InBox exampleConfig.lower exampleConfig.upper b.point := by
   intro s hs
-  refine (C05_best_in_box exampleConfig ⟨by norm_num [exampleConfig], by norm_num [exampleConfig]⟩ rfl rfl
+  refine (C05_best_in_box exampleConfig (by show Ev.DimOK1 2; decide) rfl rfl
     exampleConfig_lt _ _ ?_ _ s hs).2
   intro ps lr hlr
   simp only [Option.some.injEq] at hlr
